@@ -81,6 +81,18 @@ def replay(case):
                 for with_prev in hod_variants:
                     if sch == 'explicit_euler':
                         sol = ode.explicit_euler(A, x0, steps, threshold=0, max_rank=200, normalize=normalize, progress=False)
+                        if normalize == 0:
+                            # a time grid that starts with an empty step, and an over-parameterised initial value (x0 + x0 - x0)
+                            xr = x0 + x0 - x0
+                            rsnap = snapshot([xr])
+                            rranks = list(xr.ranks)
+                            steps0 = [0.0] + list(steps)
+                            sol0 = ode.explicit_euler(A, xr, steps0, threshold=0, max_rank=200, normalize=0, progress=False)
+                            for sig, msg in check_trajectory(sol0, xr, Ad, steps0, sch, P, isl, 0, False, prev, dims):
+                                out.append(('%s:zero-first-step:%s:%s' % (tag, sig, kind), msg))
+                            if changed(rsnap) or list(xr.ranks) != rranks:
+                                out.append(('operand_changed', 'explicit_euler modified its initial value (time grid starting with a step of size 0; '
+                                            'ranks %r -> %r)' % (rranks, list(xr.ranks))))
                     elif sch == 'implicit_euler':
                         # at maximal ranks the initial value itself is passed as initial guess (one object in two roles)
                         g_ = x0 if (list(x0.ranks) == list(guess.ranks) and normalize == 0) else guess
@@ -110,6 +122,19 @@ def replay(case):
                         res2 = check_trajectory(sol2, x0, Ad, steps, sch, P, isl, normalize, with_prev, prev, dims)
                         for sig, msg in res2:
                             out.append(('%s:op_hod:%s:%s' % (tag, sig, kind), '%s (op_hod passed; dims %r, order %d)' % (msg, dims, 2 * mm)))
+                    if solver == 'mals' and normalize == 0 and isinstance(sol, list) and len(sol) == len(steps) + 1:
+                        # linear schemes are scale invariant: an initial value of tiny magnitude (2^-44 x0), inner solver with its
+                        # default relative threshold
+                        x0s = (2.0 ** -44) * x0
+                        f_ = ode.implicit_euler if sch == 'implicit_euler' else ode.trapezoidal_rule
+                        sols = f_(A, x0s, guess, steps, repeats=1, tt_solver='mals', threshold=1e-12, max_rank=np.inf, micro_solver=micro,
+                                  normalize=0, progress=False)
+                        for k_ in range(1, len(steps) + 1):
+                            a_, b_ = vec(sols[k_]) * 2.0 ** 44, vec(sol[k_])
+                            if a_.shape != b_.shape or np.linalg.norm(a_ - b_) > 1e-7 * max(np.linalg.norm(b_), 1e-300):
+                                out.append(('%s:scaled:%s' % (tag, kind), 'initial value scaled by 2^-44: state %d is not the scaled state of the '
+                                            'unscaled run (relative deviation %.3e)' % (k_, np.linalg.norm(a_ - b_) / max(np.linalg.norm(b_), 1e-300))))
+                                break
                     res = check_trajectory(sol, x0, Ad, steps, sch, P, isl, normalize, with_prev, prev, dims)
                     for sig, msg in res:
                         out.append(('%s:%s:%s' % (tag, sig, kind), '%s (dims %r, steps 2^-%r, normalize=%d)' % (msg, dims, cfg['steps'], normalize)))
